@@ -358,8 +358,8 @@ def gen_world(seed, profile="greedy", opts=None):
     for g in graphs:
         cp = critical_path(g, profiles)
         g["release"] = gen_release(r, opts, horizon=max(10, 4 * cp + 10))
-        g["deadline_variance"] = r.choice([[0, 0], [0, 0], [0, 50], [10, 100], [50, 50], [0, 300],
-                                           [100, 400]])
+        g["deadline_variance"] = r.choice(opts.get("deadline_variances") or
+                                          [[0, 0], [0, 0], [0, 50], [10, 100], [50, 50], [0, 300], [100, 400]])
         if r.random() < 0.15:
             g["deadline_variance"] = None  # falls back to flag values
     # flags
@@ -371,7 +371,7 @@ def gen_world(seed, profile="greedy", opts=None):
         flags["scheduler_run_at_worker_free"] = True
     if r.random() < opts.get("p_drop", 0.2):
         flags["drop_skipped_tasks"] = True
-    if opts["conditionals"] and r.random() < 0.3:
+    if opts["conditionals"] and r.random() < opts.get("p_resolve", 0.3):
         flags["resolve_conditionals_at_submission"] = True
     if r.random() < 0.15:
         flags["min_deadline_variance"], flags["max_deadline_variance"] = r.choice(
@@ -404,6 +404,23 @@ def gen_world(seed, profile="greedy", opts=None):
         world["loader"] = {"kind": "batch", "interval": r.choice([1, 3, 7]),
                            "batches": r.choice([2, 3])}
         world["flags"]["workload_update_interval"] = world["loader"]["interval"]
+    ro = random.Random(f"{seed}:node_order")
+    for g in graphs:
+        if ro.random() < opts.get("p_shuffle_nodes", 0.3):
+            names = [n["name"] for n in g["nodes"]]
+            ro.shuffle(names)
+            g["node_order"] = names
+    if opts.get("time_scale"):
+        scale_world(world, opts["time_scale"])
+        world["mixed_units"] = True
+    if profile == "chaos" and policy.get("p_load"):
+        # loading strategies so that ChaosPolicy can load / re-load / evict model profiles next to running tasks
+        rl = random.Random(f"{seed}:loading")
+        for pname in sorted(profiles):
+            if rl.random() < 0.6:
+                profiles[pname]["loading"] = [
+                    {"req": {f"{rl.choice(cluster['types'])}:any": rl.choice([1, 1, 2])},
+                     "runtime": rl.choice([0, 1, 3]), "batch": 1} for _ in range(rl.choice([1, 2]))]
     if profile == "chaos" and policy.get("p_batch"):
         rb = random.Random(f"{seed}:batchsize")
         for pname in sorted(profiles):
@@ -413,9 +430,48 @@ def gen_world(seed, profile="greedy", opts=None):
     return world
 
 
+def scale_world(w, k):
+    """multiply every duration / instant of a (greedy or chaos) world by k: with k = 1000 the run happens on
+    a millisecond grid, so that deadlines can be written in ms (or s) and the mixed-unit code paths of
+    EventTime are exercised by whole runs"""
+    for p in w["profiles"].values():
+        for s_ in p["strategies"] + p.get("loading", []):
+            s_["runtime"] *= k
+    for g in w["graphs"]:
+        rel = g["release"]
+        for f in ("period", "start"):
+            if f in rel:
+                rel[f] *= k
+        for f in ("rate", "base_rate"):
+            if f in rel:
+                rel[f] = rel[f] / k
+        for n in g["nodes"]:
+            if "slo" in n:
+                n["slo"] *= k
+    w["sim"]["loop_timeout"] *= k
+    if w["sim"]["scheduler_frequency"] > 0:
+        w["sim"]["scheduler_frequency"] *= k
+    else:
+        # "-1: again in the next microsecond" / "0: continuously" would mean thousands of invocations per
+        # (scaled) time unit while a task waits for resources: use one invocation per scaled unit instead
+        w["sim"]["scheduler_frequency"] = k
+    fl = w["flags"]
+    fl["scheduler_delay"] *= k
+    fl["min_deadline"] *= k
+    if fl["max_deadline"] < 2 ** 62:
+        fl["max_deadline"] *= k
+    if w["faults"].get("cut"):
+        w["faults"]["cut"] *= k
+    pol = w["policy"]
+    for f in ("runtime", "lookahead"):
+        if pol.get(f):
+            pol[f] *= k
+    w["time_scale"] = k
+
+
 def gen_policy(r, profile, opts, flags):
     if profile == "greedy":
-        name = opts.get("policy") or r.choice(GREEDY)
+        name = opts.get("policy") or r.choice(opts.get("greedy_policies") or GREEDY)
         pol = {"name": name, "runtime": 0}
         if name in ("EDF", "FIFO") and r.random() < opts.get("p_enforce", 0.3):
             pol["enforce_deadlines"] = True
@@ -427,7 +483,11 @@ def gen_policy(r, profile, opts, flags):
                 "ids": r.random() < 0.5,
                 "p_skip": r.choice([0.0, 0.1, 0.3]), "p_cancel": r.choice([0.0, 0.0, 0.05, 0.15]),
                 "p_future": r.choice([0.0, 0.2, 0.5]), "p_omit": r.choice([0.0, 0.1]),
-                "p_full": r.choice([0.0, 0.3]), "p_batch": r.choice([0.0, 0.0, 0.3, 0.7])}
+                "p_full": r.choice([0.0, 0.3]), "p_batch": r.choice([0.0, 0.0, 0.3, 0.7]),
+                "p_load": r.choice([0.0, 0.0, 0.2, 0.5])}
+    if profile == "wc":
+        # harness-owned work-conserving policy with a non-zero decision latency (fault kind F2)
+        return {"name": "WC", "runtime": r.choice([1, 1, 2, 3, 5]), "order": r.choice(["release", "deadline"])}
     if profile == "plan":
         name = opts.get("policy") or r.choice(opts.get("policies") or
                                               ["ILP", "ILP", "TetriSchedGurobi", "TetriSchedGurobi",
